@@ -382,6 +382,42 @@ def run(p, led, tier):
         else:
             led.ok("C11-R1", key, where(f, f.node), f"{len(paths)} path(s): the second result is validated by the second schema")
 
+    # each fold answers for itself: the same text folded twice on one validator, with the caller editing the first result
+    # in between (a healing loop lowers its confidence; a caller may fill in the structure) — the second result must be the
+    # validator's own verdict again, not the first object handed out a second time
+    for fname, inner, rcls in (("fold", att.qual, FP), ("fold_enhanced", atte.qual, EFP)):
+        f = p.find_method(chap, fname)
+
+        def again(o):
+            it = Interp(p, o)
+            c = it.instantiate(chap, [], dict(silent=True, on_misfold=None))
+            n_calls = [0]
+
+            def attempt(interp, args, kwargs):
+                n_calls[0] += 1
+                return interp.instantiate(rcls, [], dict(valid=True, structure=Unknown(f"validated#{n_calls[0]}"), raw_peptide_chain=args[1], **({"confidence": 1.0, "strategy_used": args[3]} if rcls is EFP else {})))
+            it.stubs[inner] = attempt
+            S = Obj(None, {"__module__": "app.models", "__qualname__": "Record", "__name__": "Record"}, tag="schema")
+            raw = Unknown("raw")
+            try:
+                r1 = it.call_fi(f, [c, raw, S], {})
+                if rcls is EFP:
+                    r1.fields["confidence"] = 0.5          # what ChaperoneLoop.heal does after a retry
+                r1.fields["structure"] = Unknown("edited_by_caller")
+                r2 = it.call_fi(f, [c, raw, S], {})
+            except PyRaise as e:
+                return dict(raised=repr(e.exc))
+            from ..fdai import _sym as __sym
+            return dict(same=r2 is r1, s2=__sym(r2.fields.get("structure")), conf2=r2.fields.get("confidence") if rcls is EFP else None)
+        paths = [r for _, r in explore(again, max_paths=300)]
+        key = f"Chaperone.{fname} ▸ same text folded again after the caller edited the first result"
+        bad = [r for r in paths if "raised" not in r and (r["same"] or "edited_by_caller" in r["s2"] or (r["conf2"] is not None and r["conf2"] != 1.0))]
+        if bad:
+            led.fail("C11-R1", key, where(f, f.node), "the second fold hands out the first result object again: the caller's edits (structure, lowered confidence) are reported as the validator's verdict on the raw text",
+                     witness="heal() lowers folded.confidence to 0.9 on a retry; fold_enhanced of the same clean text then reports STRICT with confidence 0.9 instead of 1.0")
+        else:
+            led.ok("C11-R1", key, where(f, f.node), f"{len(paths)} path(s): a fresh result each time")
+
     # totality of the strategy implementations themselves on hostile text (may-raise table, exception classes vs handlers)
     esc = Escapes(res)
     for fname in ("fold", "fold_enhanced"):
